@@ -295,3 +295,90 @@ Proof.
   split; [|split; [discriminate|repeat constructor; lra]].
   unfold Rsum; cbn [map fold_right]. rewrite !exp_ln by lra. lra.
 Qed.
+
+(* ========================================================================================== *)
+(* SOURCE TIE (notes/C19_tie_report.md): the Python text of _combinatorics.py, translated on every run by    *)
+(* harness/py2coq (PV.Gen.C19Src), interpreted by PV.MiniPy.Interp with the torch calls given the meaning of  *)
+(* PV.MiniTorch.OpsC19 (SrcRun.ext19: exact rationals, torch.bernoulli an ORACLE, torch.empty's content a    *)
+(* parameter).  TorchScript (@script), dtypes, devices, rounding are not modelled.                            *)
+(* ========================================================================================== *)
+From PV Require MiniPy.Interp MiniTorch.Ops MiniTorch.Value MiniTorch.OpsC19 Gen.C19Src C19.SrcRun C19.TieSrswor C19.Tie.
+
+(* simple_random_sampling_without_replacement(total_count, given_count, out_size) - the WHOLE body - on count tensors of
+   ANY shape [sh] (entries [totals], [givens]; at least one element), out_size given (>= 0) or None, for EVERY content
+   [junk] of the memory torch.empty returns and EVERY oracle [orc] behind torch.bernoulli (a function of the call index,
+   the whole tensor of probabilities and the position; 0/1-valued and of p's shape by construction) that draws 1 where
+   p = 1 and 0 where p = 0 ([oracle_ok]); given counts non-negative.  Either some given count exceeds its total or
+   out_size is below the largest total and the run raises RuntimeError, or it returns the tensor of shape sh + (out_size,)
+   whose n-th row is Model.srswor total[n] given[n] out_size on a script of uniforms in [0, 1). *)
+Theorem c19_source_srswor_is_model : forall orc junk sh totals givens out,
+  OpsC19.oracle_ok orc -> length totals = OpsC19.numel sh -> length givens = OpsC19.numel sh -> totals <> [] ->
+  Forall (fun g => (0 <= g)%Z) givens -> Tie.out_ok out ->
+  let O := Z.to_nat (Tie.oeffz out totals) in
+  if Tie.guard totals givens out
+  then exists st, SrcRun.run_srswor orc junk (SrcRun.ztens sh totals) (SrcRun.ztens sh givens) out
+                  = Interp.Exc SrcRun.runtime_error st
+  else exists st rows,
+         SrcRun.run_srswor orc junk (SrcRun.ztens sh totals) (SrcRun.ztens sh givens) out
+         = Interp.Ok (Value.enc (SrcRun.ztens (sh ++ [O]) (concat rows))) st /\
+         length rows = OpsC19.numel sh /\
+         forall n, (n < OpsC19.numel sh)%nat ->
+           exists us, Forall unit_u us /\ srswor (nth n totals 0%Z) (nth n givens 0%Z) O us = Some (nth n rows []).
+Proof. exact Tie.srswor_tie. Qed.
+Print Assumptions c19_source_srswor_is_model.
+
+(* the same with a ONE-ELEMENT given_count (0-dim, or every size 1 and no more dimensions than total_count) that
+   torch.broadcast_tensors expands to the batch *)
+Theorem c19_source_srswor_scalar_given_is_model : forall orc junk sh totals gsh g out,
+  OpsC19.oracle_ok orc -> length totals = OpsC19.numel sh -> totals <> [] -> (0 <= g)%Z -> Tie.out_ok out ->
+  OpsC19.shape_eqb sh gsh = false ->
+  OpsC19.one_elt (SrcRun.ztens sh totals) (SrcRun.ztens gsh [g]) = false ->
+  OpsC19.one_elt (SrcRun.ztens gsh [g]) (SrcRun.ztens sh totals) = true ->
+  Tie.srswor_conclusion (SrcRun.run_srswor orc junk (SrcRun.ztens sh totals) (SrcRun.ztens gsh [g]) out)
+    sh totals (repeat g (OpsC19.numel sh)) out.
+Proof. exact Tie.srswor_tie_scalar_given. Qed.
+Print Assumptions c19_source_srswor_scalar_given_is_model.
+
+(* the interpreted source raises RuntimeError exactly when the model returns None for some batch element *)
+Theorem c19_source_srswor_raises_iff : forall orc junk sh totals givens out,
+  OpsC19.oracle_ok orc -> length totals = OpsC19.numel sh -> length givens = OpsC19.numel sh -> totals <> [] ->
+  Forall (fun g => (0 <= g)%Z) givens -> Tie.out_ok out ->
+  ((exists st, SrcRun.run_srswor orc junk (SrcRun.ztens sh totals) (SrcRun.ztens sh givens) out
+               = Interp.Exc SrcRun.runtime_error st) <->
+   exists n, (n < OpsC19.numel sh)%nat /\
+             forall us, srswor (nth n totals 0%Z) (nth n givens 0%Z) (Z.to_nat (Tie.oeffz out totals)) us = None).
+Proof. exact Tie.srswor_source_raises_iff. Qed.
+Print Assumptions c19_source_srswor_raises_iff.
+
+(* a total_count without elements: Tensor.max() raises before anything else happens *)
+Theorem c19_source_srswor_empty_batch_raises : forall orc junk s1 s2 d2 out,
+  exists st, Interp.run (SrcRun.ext19 orc junk) C19Src.srswor_body
+               (SrcRun.srswor_vars (Ops.mkTens s1 []) (Ops.mkTens s2 d2) out) = Interp.Exc SrcRun.runtime_error st.
+Proof. exact TieSrswor.srswor_run_empty. Qed.
+Print Assumptions c19_source_srswor_empty_batch_raises.
+
+(* COMPOSED with c19_srswor_cardinality_and_positions - purely about the interpreted source: whenever it returns, for
+   every oracle and every uninitialised memory, every returned row has exactly given[n] ones, all of them within the
+   first total[n] positions (and out_size entries, each 0 or 1) *)
+Theorem c19_source_srswor_cardinality_and_positions : forall orc junk sh totals givens out v st,
+  OpsC19.oracle_ok orc -> length totals = OpsC19.numel sh -> length givens = OpsC19.numel sh -> totals <> [] ->
+  Forall (fun g => (0 <= g)%Z) givens -> Tie.out_ok out ->
+  SrcRun.run_srswor orc junk (SrcRun.ztens sh totals) (SrcRun.ztens sh givens) out = Interp.Ok v st ->
+  exists rows, v = Value.enc (SrcRun.ztens (sh ++ [Z.to_nat (Tie.oeffz out totals)]) (concat rows)) /\
+    length rows = OpsC19.numel sh /\
+    forall n, (n < OpsC19.numel sh)%nat ->
+      srswor_ok (nth n totals 0%Z) (nth n givens 0%Z) (Z.to_nat (Tie.oeffz out totals)) (nth n rows []).
+Proof. exact Tie.srswor_source_cardinality_and_positions. Qed.
+Print Assumptions c19_source_srswor_cardinality_and_positions.
+
+Example c19_source_nonvacuous :
+  let us := [[1#2; 1#2]; [1#2; 1#2]; [1#2; 1#2]; [1#2; 1#2]; [1#2; 1#2]]%Q in
+  SrcRun.agrees (SrcRun.run_srswor (SrcRun.orc_of_script us) SrcRun.junk_check (SrcRun.ztens [2%nat] [4; 3]%Z)
+                   (SrcRun.ztens [2%nat] [2; 1]%Z) (Some 5%Z))
+                (Some ([2%nat; 5%nat], [0; 1; 0; 1; 0; 0; 0; 1; 0; 0]%Z)) = true /\
+  SrcRun.agrees (SrcRun.run_srswor (SrcRun.orc_of_script us) SrcRun.junk_check (SrcRun.ztens [2%nat] [4; 3]%Z)
+                   (SrcRun.ztens [] [2]%Z) None)
+                (Some ([2%nat; 4%nat], [0; 1; 0; 1; 1; 0; 1; 0]%Z)) = true /\
+  SrcRun.agrees (SrcRun.run_srswor (SrcRun.orc_of_script us) SrcRun.junk_check (SrcRun.ztens [2%nat] [4; 3]%Z)
+                   (SrcRun.ztens [2%nat] [2; 4]%Z) None) None = true.
+Proof. vm_compute. repeat split. Qed.
